@@ -5,7 +5,7 @@
    object, one set of listeners, whose behaviour follows the environment of the run at hand) - nothing of an earlier run,
    failed or not, may show in a later status, report or handler invocation; each run is decided on its own.  Event:
      env   the environment (as in AppRun)
-     msgs  [pre, l1, l2, l3, handler : [known, lines]]  the message of the exception each source raises in this run
+     msgs  [io, pre, l1, l2, l3, handler : [known, lines]]  the message of the exception each source raises in this run
            (known = FALSE: that source raises nothing, or its exception has no printable message)
      o     [status (-1: none), escaped ("" or the class that escaped run(), "returned:<type>" for a non-integer return),
             calls : Seq([cmd, args, opts]), out, err : the lines printed on the two streams (cells),
@@ -27,7 +27,7 @@ Printed == E.o.out \o E.o.err
 NonBlank(line) == \E k \in 1..Len(line) : line[k] # " "
 SomethingPrinted == E.o.chars > 0        \* anything at all, a bare line end included
 Src == Eff(E.env).src
-MsgOf(src) == CASE src = "pre" -> E.msgs.pre [] src = "l1" -> E.msgs.l1 [] src = "l2" -> E.msgs.l2 [] src = "l3" -> E.msgs.l3
+MsgOf(src) == CASE src = "io" -> E.msgs.io [] src = "pre" -> E.msgs.pre [] src = "l1" -> E.msgs.l1 [] src = "l2" -> E.msgs.l2 [] src = "l3" -> E.msgs.l3
                 [] src = "handler" -> E.msgs.handler [] OTHER -> [known |-> FALSE, lines |-> <<>>]
 Shows == LET m == MsgOf(Src) IN
          m.known => ER!MessageShown(m.lines, Printed)
